@@ -2,7 +2,38 @@
 //! counted as "rFSM threads" for the quiescence protocol.
 
 use crate::rec::{self, RecKind};
-pub use shuttle::thread::{current, yield_now, JoinHandle, Thread, ThreadId};
+pub use shuttle::thread::{current, yield_now, Thread, ThreadId};
+use std::sync::atomic::{AtomicUsize, Ordering};
+use std::sync::Arc;
+
+/// `std::thread::JoinHandle` stand-in: a `join` is recorded like a lock wait (class "join", owned by the
+/// joined task), so that wait-for cycles through a join show up in deadlock reports.
+pub struct JoinHandle<T> {
+    inner: shuttle::thread::JoinHandle<T>,
+    target: Arc<AtomicUsize>,
+}
+
+impl<T> JoinHandle<T> {
+    pub fn join(self) -> std::thread::Result<T> {
+        let me = rec::current_task();
+        let id = usize::MAX / 2 + me;
+        let target = self.target.clone();
+        rec::with(|r| {
+            r.waiting.insert(me, (id, "join"));
+            r.join_targets.insert(id, target);
+        });
+        let res = self.inner.join();
+        rec::with(|r| {
+            r.waiting.remove(&me);
+            r.join_targets.remove(&id);
+        });
+        res
+    }
+
+    pub fn thread(&self) -> &Thread {
+        self.inner.thread()
+    }
+}
 
 pub struct Builder {
     name: Option<String>,
@@ -29,12 +60,15 @@ impl Builder {
             r.rfsm_threads_live += 1;
         });
         let n2 = name.clone();
+        let target = Arc::new(AtomicUsize::new(usize::MAX));
+        let t2 = target.clone();
         let mut b = shuttle::thread::Builder::new();
         if let Some(n) = self.name {
             b = b.name(n);
         }
         let h = b.spawn(move || {
             let me = rec::current_task();
+            t2.store(me, Ordering::SeqCst);
             rec::with(|r| {
                 r.task_names.insert(me, n2.clone());
                 r.push(RecKind::ThreadStart { name: n2 });
@@ -44,7 +78,7 @@ impl Builder {
             drop(guard);
             v
         })?;
-        Ok(h)
+        Ok(JoinHandle { inner: h, target })
     }
 }
 
